@@ -443,6 +443,17 @@ func TestWorker(t *testing.T) {
 			break
 		}
 		os.WriteFile(progress, []byte(strconv.FormatUint(i, 10)), 0o644)
+		if (i-lo)%8 == 0 && i > lo {
+			// a partial summary, so that a worker killed by the run in progress (out of memory,
+			// runtime fatal) does not take the counts of its earlier runs with it
+			sum.Distinct = len(descs)
+			sum.WallS = time.Since(start).Seconds()
+			sum.EntropyBytes, sum.EntropyDraws = ebytes, edraws
+			sum.MapSeamed, sum.MapUnseamed, sum.MapPermuted = simrt.MapStats()
+			if b, err := json.Marshal(sum); err == nil {
+				os.WriteFile(out+".part", b, 0o644)
+			}
+		}
 		tape := simrt.NewTape(simrt.Mix(w.Seed, i))
 		w.SetEntropy(simrt.Mix(w.Seed, i)^0xe17, simrt.EntKeyed, 0)
 		o := eng.Run(w, tape)
